@@ -19,7 +19,7 @@ from vlib import refber as rb
 LEVEL = "fault_enumeration"
 
 FAULTS = ["deliver", "deliver", "deliver", "dup", "hold", "rid+1", "rid-1", "rid_rand", "rid_other", "rid_wide", "community", "version",
-          "msgid", "msgid_wide", "user", "engine", "near", "truncate", "drop", "report_stale"]
+          "msgid", "msgid_wide", "user", "engine", "near", "truncate", "drop", "report_stale", "echo_req"]
 # ids that agree with the real one in their low 31/32 bits or differ only in width (5..8 content octets)
 WIDE = [1 << 32, -(1 << 32), 5 << 40, 1 << 31, -(1 << 31), 1 << 62, -(1 << 63), 3 << 32, (1 << 32) + (1 << 31)]
 BASE = (1, 3, 6, 1, 2, 1, 7)
@@ -106,6 +106,17 @@ def emit(cfg, parsed, src, fault, param):
     elif fault == "user":
         if cfg.version == "v3":
             kw["user"] = (cfg.user + "x").encode() if param & 1 else b""
+    elif fault == "echo_req":
+        # a well-formed *request* PDU (GetRequest / GetNextRequest, NULL values) of the session's version and credentials
+        # whose request-id is that of no request of this history - e.g. another manager's request reflected by a
+        # misconfigured device; it answers nothing and has to be skipped like any other non-matching message
+        rid = (req["request_id"] + 1 + (param % 5)) & 0x7FFFFFFF
+        used = {p_["request_id"] for p_ in parsed if p_ is not None and "request_id" in p_}
+        while rid in used:
+            rid = (rid + 7919) & 0x7FFFFFFF
+        kw["request_id"] = rid
+        kw["pdu_tag"] = rb.PDU_GETNEXT if param & 8 else rb.PDU_GET
+        vb = [rb.varbind(rb.enc_oid(name), rb.tlv(rb.T_NULL, b""))]
     elif fault == "report_stale":
         # a Report of this very agent for this very user (say a network duplicate of the Report that answered an earlier
         # exchange) whose msgID is that of no request of this history; its request-id is the request's or arbitrary
@@ -303,7 +314,7 @@ def nontrivial(c):
 def run(rep, tier):
     G = drivers.load()
     rep.rule = ("Hypothesis scripts: 1..4 requests (get/get_many/getnext/getbulk) on one session x per-request bursts of 0..5 "
-                "emissions (source request <= k, fault in deliver/drop/dup/hold/stale Report with a foreign msgID/rid+-1/rid random/rid of other request/community/"
+                "emissions (source request <= k, fault in deliver/drop/dup/hold/stale Report with a foreign msgID/request PDU with a foreign request-id/rid+-1/rid random/rid of other request/community/"
                 "version/msgID/user/engine id/near-miss credentials (one octet appended, removed or changed)/ids equal modulo 2^31-2^32/truncate) x v1/v2c/v3(all levels; half of the v3 sessions learn their engine id by discovery) x nb(90%)/sync/async. Non-trivial = script has an "
                 "emission that is stale (source < k) or faulted; distinct by (cfg, script). Thorough adds exhaustive fault words.")
     rep.assumptions = ["FIFO delivery on loopback UDP", "ids are read from the wire, never predicted"]
